@@ -120,7 +120,8 @@ std::string sym_val(uint64_t v, unsigned size);     // canonical rendering of a 
 int status();                                       // current violation status (S_OK if none)
 std::string detail();
 long live_tracked_blocks();                         // number of tracked heap blocks not yet freed
-long tracked_allocs();                              // number of tracked allocations so far
+long tracked_allocs();
+long live_blocks_by_threads();                        // live tracked blocks that were allocated by logical threads (not by the main thread)                              // number of tracked allocations so far
 void set_solo(int tid, long budget);                // from now on only `tid` is scheduled (C16)
 bool is_freed(const void* p);                       // p lies in a quarantined block
 uint64_t step_count();
